@@ -73,7 +73,7 @@ def xdev_configs(tier: str, scratch: str) -> list:
     if F.xdev_root(scratch) is None:
         return []
     # (no tensor backed by the destination: onnx_ir refuses to READ through a link that leaves the base directory)
-    out = [_cfg(2, 2, "symlink", (), xdev=True), _cfg(1, 1, "symlink", (), np=(1,), xdev=True)]
+    out = [_cfg(2, 2, "symlink", (), xdev=True), _cfg(1, 1, "symlink", (), xdev=True)]
     if tier == "thorough":
         out += [_cfg(3, 2, "symlink", (), par=True, xdev=True), _cfg(1, 2, "symlink", (), xdev=True),
                 _cfg(2, 1, "symlink", (), other=(2,), ov="b", xdev=True)]
@@ -314,6 +314,7 @@ def py_faults(events: list, tier: str) -> list:
         base = {"a": e["a"], "t": e["t"], "j": e["j"], "occ": seen[key]}
         if e["a"] in ("Callback", "WriteChunk"):
             out.append(dict(base, kind="fail", exc="rt"))           # the tensor / the callback raises
+            out.append(dict(base, kind="fail", exc="kbd"))          # ... something that is not an Exception
             if e["a"] == "WriteChunk":
                 out.append(dict(base, kind="fail", exc="os", errno="ENOSPC"))
         elif e["a"] == "CheckExists":
